@@ -252,7 +252,42 @@ def _pair(ctx):
 
 
 def _ns(ctx):
+    """C06.ns - decided on the instantiated headers when the generators evaluate (E4, create_header of every support module
+    under no prefix, a one-identifier and a two-identifier prefix - the code only concatenates and joins the identifiers): the
+    namespace handed back, the C++ namespace the contents are wrapped in and the prefix of the file name are one and the same
+    `<prefix>.Dzn`.  The shape rule (distillate_ns returns / prefix handed on) decides when the generators do not evaluate."""
     run, prog = ctx.run, ctx.prog
+    import re as _re
+    try:
+        n = 0
+        for prefix in (None, ('Acme',), ('My', 'Project')):
+            hs = extract_headers(ctx, prefix)
+            want = tuple(prefix or ()) + ('Dzn',)
+            for m in SUPPORT_MODULES:
+                h = hs[m]
+                fn = prog.func(f'support_files.{m}', 'create_header')
+                problems = []
+                if h['namespace'] != '::'.join(want):
+                    problems.append(f"the namespace handed back is `{h['namespace']}`")
+                if not (h['filename'].startswith('_'.join(want) + '_') and h['filename'].endswith('.hh') and
+                        '_' not in h['filename'][len('_'.join(want)) + 1:]):
+                    problems.append(f"the file is named `{h['filename']}`")
+                opened = _re.findall(r'^namespace[ \t]*([A-Za-z_0-9:]*)[ \t]*\{', h['contents'], flags=_re.M)
+                closed = _re.findall(r'^\}[ \t]*// namespace[ \t]*([A-Za-z_0-9:]*)[ \t]*$', h['contents'], flags=_re.M)
+                if opened != ['::'.join(want)]:
+                    problems.append(f'the contents are wrapped in namespace {opened or "(none)"}')
+                if closed != opened:
+                    problems.append(f'the closing comment names {closed or "(none)"}')
+                n += 1
+                run.add('C06.ns', fn.module.name, fn.qualname, f'{m}: prefix {".".join(prefix) if prefix else "(none)"}', not problems,
+                        f'file name, namespace handed back and namespace of the contents are all `{".".join(want)}`' if not problems else
+                        f'under the prefix `{".".join(prefix) if prefix else "(none)"}` the support file {m} should live in `{".".join(want)}` '
+                        f'throughout, but ' + '; '.join(problems))
+        run.stats['ns_rule_decided_by'] = f'instantiation of the {len(SUPPORT_MODULES)} header generators under 3 prefixes (E4)'
+        run.floor('C06.ns', 8)
+        return
+    except AnalysisError as exc:
+        run.remark(f'C06.ns: the header generators do not evaluate ({exc}); the shape rule decides')
     dn = prog.func('support_files', 'distillate_ns')
     rets = [n for n in iter_own_nodes(dn.node) if isinstance(n, ast.Return) and isinstance(n.value, ast.Tuple)]
     for r in rets:
